@@ -61,11 +61,12 @@ class Ctx(object):
     def foff(self, n):
         return self.erec.field(n)[1]
 
-    def run(self, fname, args_fn, extra=None):
+    def run(self, fname, args_fn, extra=None, no_merge=False):
         E = Engine(self.prog, port=PortModel())
         E.loop_info = {}
         E.keep_iter_states = True
         E.force_summary = True
+        E.no_merge = no_merge      # small functions whose rules read per-path knowledge (what was compared) off the states
         calls = []
 
         def find_summary(I, st, args, node, rty):
@@ -239,6 +240,35 @@ def run(tier):
             else:
                 rep.check(s2.same(cnt, c0s), 'R16.remove', 'no-match-count', 'count changes (%s -> %s) in an iteration that invalidates nothing' % (short(c0s), short(cnt)),
                           function='session_table_remove', file=fnf)
+    # the same obligations read off the final states (whatever the shape: own loop with break, or lookup-then-invalidate):
+    # an entry whose valid byte was written is cleared, had matched the key, and count went down by exactly one
+    I2, outs2 = cx.run('session_table_remove', lambda st: [Val(tp, T0), Val(mp, M0), Val(u16, GEN)], no_merge=True)
+    for st, v in outs2:
+        T = st.objs['T']
+        cnt = cx.tfield(st, 'count')
+        bases = []
+        for kk, (w, t) in T.cells.items():
+            if kk[0]:
+                off = Lin(dict(kk[0]), kk[1])
+                if (off.k - cx.eoff - cx.foff('valid')) % cx.esz == 0 and w == 1:
+                    bases.append((off, st.canon(t)))
+        if not bases:
+            rep.check(st.same(cnt, CNT), 'R16.remove', 'final|no-match-count', 'remove leaves count %s on a path that invalidates nothing' % short(cnt),
+                      function='session_table_remove', file=fnf)
+            continue
+        rep.check(len(bases) == 1, 'R16.remove', 'final|single', 'remove writes the valid byte of %d entries on one path' % len(bases), function='session_table_remove', file=fnf)
+        off, val = bases[0]
+        from ..terms import term_of_lin
+        base = term_of_lin(Lin(dict(off.co), off.k - cx.foff('valid')))
+        ncleared += 1
+        rep.check(val == ZERO, 'R16.remove', 'final|cleared', 'remove stores %s into an entry\'s valid byte' % short(val), function='session_table_remove', file=fnf)
+        macok = all(st.same(mem.load_bytes(st, T, ('add', base, C(cx.foff('mapper_mac') + j)), 1)[0], ('in', 'MAC', j))
+                    or compared_equal(st, ('add', base, C(cx.foff('mapper_mac') + j)), ('in', 'MAC', j)) for j in range(6))
+        genok = st.same(cx.field(st, base, 'generation', 2), GEN) or cx.gen_compared(st, base)
+        rep.check(macok and genok, 'R16.remove', 'final|key', 'an entry is invalidated without its address and generation having matched', function='session_table_remove', file=fnf)
+        okc = st.same(cnt, ('add', CNT, C(-1))) or (st.same(cnt, CNT) and st.dom(CNT).hi == 0)
+        rep.check(okc, 'R16.remove', 'final|pairing', 'invalidating an entry changes count from %s to %s (must be exactly one less)' % (short(CNT), short(cnt)),
+                  function='session_table_remove', file=fnf)
     rep.check(ncleared > 0, 'R16.remove', 'paths', 'remove never invalidates an entry', function='session_table_remove', file=fnf)
 
     # ---------------- clear
@@ -253,19 +283,17 @@ def run(tier):
         rep.check(cx.tfield(st, 'all_complete') == ONE, 'R16.clear', 'flag', "clear leaves 'all complete' = %s" % short(cx.tfield(st, 'all_complete')), function='session_table_clear', file=fnf)
 
     # ---------------- update_complete_status
-    I, outs = cx.run('session_table_update_complete_status', lambda st: [Val(tp, T0)])
+    I, outs = cx.run('session_table_update_complete_status', lambda st: [Val(tp, T0)], no_merge=True)
     ubs(I, 'R16.status')
     lid = one_loop(I, 'session_table_update_complete_status')
     k = ('sym', 'iter:' + lid, 0, INF)
     base = ('add', ('mul', C(cx.esz), k), C(cx.eoff))
-    ind = I.loop_info[lid]['induction']
-    rep.check(sorted(ind.values()) == [1], 'R16.status', 'index-step', 'recomputation index does not advance by 1 (%s)' % ind, function='session_table_update_complete_status', file=fnf)
     for kind, trace, s2 in I.loop_info[lid]['iter_states'] or []:
         v = s2.dom(cx.field(s2, base, 'valid', 1))
         c = s2.dom(cx.field(s2, base, 'complete', 1))
         incomplete = v.lo >= 1 and c.hi == 0
         fine = v.hi == 0 or c.lo >= 1
-        if kind == 'break':
+        if kind in ('break', 'return'):
             rep.check(incomplete, 'R16.status', 'early-exit', 'the scan stops at an entry that is not known to be valid and incomplete (valid %s, complete %s)' % (v, c),
                       function='session_table_update_complete_status', file=fnf)
         else:
@@ -354,10 +382,46 @@ def one_loop(I, fname):
     return l[0]
 
 
+def callers_of(ix, name):
+    out = set()
+    for fname, fn in ix.functions.items():
+        for n in walk(fn):
+            if n.get('kind') == 'CallExpr' and n.get('inner'):
+                c = n['inner'][0]
+                while c.get('kind') in ('ImplicitCastExpr', 'ParenExpr'):
+                    c = c['inner'][0]
+                if c.get('kind') == 'DeclRefExpr' and c.get('referencedDecl', {}).get('name') == name:
+                    out.add(fname)
+    return out
+
+
+def writer_module(ix):
+    """The table API, the tick, and static helpers all of whose callers belong to that set."""
+    callers = {}
+    for fname, fn in ix.functions.items():
+        for n in walk(fn):
+            if n.get('kind') == 'CallExpr' and n.get('inner'):
+                c = n['inner'][0]
+                while c.get('kind') in ('ImplicitCastExpr', 'ParenExpr'):
+                    c = c['inner'][0]
+                if c.get('kind') == 'DeclRefExpr':
+                    callers.setdefault(c.get('referencedDecl', {}).get('name'), set()).add(fname)
+    module = set(WRITERS_OK)
+    grew = True
+    while grew:
+        grew = False
+        for fname, fn in ix.functions.items():
+            if fname not in module and fn.get('storageClass') == 'static' and callers.get(fname) and callers[fname] <= module:
+                module.add(fname)
+                grew = True
+    return module
+
+
 def writers(rep, prog):
     fields = {'valid': 'session_entry', 'count': 'session_table', 'all_complete': 'session_table', 'last_activity_ts': 'session_entry'}
     n = 0
     for ix in prog.index.values():
+        module = writer_module(ix)
         for fname, fn in ix.functions.items():
             for nd in walk(fn):
                 lhs = None
@@ -374,10 +438,11 @@ def writers(rep, prog):
                     if rp and rp[0].name.replace('struct ', '') == fields[lhs['name']]:
                         n += 1
                         if lhs['name'] == 'last_activity_ts':
-                            rep.check(fname == 'session_table_add', 'R16.a', 'writer|%s|last_activity_ts' % fname,
+                            add_module = {'session_table_add'} | set(f for f in module if f not in WRITERS_OK and callers_of(ix, f) <= {'session_table_add'})
+                            rep.check(fname in add_module, 'R16.a', 'writer|%s|last_activity_ts' % fname,
                                       'function %s writes a session\'s activity stamp; only session_table_add (from the clock) may' % fname, node=nd, function=fname)
                             continue
-                        rep.check(fname in WRITERS_OK, 'R16.a', 'writer|%s|%s' % (fname, lhs['name']),
+                        rep.check(fname in module, 'R16.a', 'writer|%s|%s' % (fname, lhs['name']),
                                   'function %s writes %s.%s outside the session-table API' % (fname, fields[lhs['name']], lhs['name']), node=nd, function=fname)
     if n < 8:
         rep.broke('only %d writes to the bookkeeping fields found' % n)
@@ -417,7 +482,7 @@ def expiry(rep, cx):
     for ob in I.obs.values():
         if not ob.ok:
             rep.fail('R16.expiry', '%s|%s' % (ob.fn, ob.kind), ob.msg, node=ob.node, function=ob.fn)
-    lids = [l for l in I.loop_info if l.startswith('automata_tick#')]
+    lids = sorted(I.loop_info)      # (in the tick itself or in a helper it was extracted into; the recomputation is summarised)
     if not lids:
         rep.fail('R16.expiry', 'no-sweep', 'the tick has no expiry sweep over the session table', function='automata_tick', file=fnf)
         return
@@ -487,6 +552,46 @@ def expiry(rep, cx):
                     rep.check(val == ONE and cnt == ONE, 'R16.expiry', 'fresh|kept',
                               'entry %d active within the last %d s is dropped by the tick (valid=%s, count=%s)' % (j, oracle.SESSION_EXPIRY_S, short(val), short(cnt)),
                               function='automata_tick', file=fnf, sample={'entry': j, 'idle': '<= 60 s', 'after_tick': 'kept'})
+    # several sessions at one tick: every idle one goes and every fresher one survives, whatever else the sweep dropped
+    # before reaching it (two valid entries at fixed indices, each independently idle or fresh; all other slots free)
+    LB = ('sym', 'entry2.last_activity', 1, 1 << 61)
+    for j1, j2 in ((0, 1), (0, cx.cap - 1), (cx.cap // 2, cx.cap - 1)):
+        for late1 in (True, False):
+            for late2 in (True, False):
+                E3 = Engine(cx.prog, port=PortModel(), summaries={'session_table_update_complete_status': upd_summary})
+
+                def setup3(I, st, j1=j1, j2=j2, late1=late1, late2=late2):
+                    t = mk_obj(st, 'T', cx.trec.size, kind='heap', default='zero', heap=True)
+                    t.zeroed_n = t.size
+                    t.cells[((), cx.toff('count'))] = (1, C(2))
+                    clk = ('sym', 'clock.s.0', 1, 1 << 63)
+                    for j, stamp, late in ((j1, LA, late1), (j2, LB, late2)):
+                        b = cx.eoff + j * cx.esz
+                        t.cells[((), b + cx.foff('valid'))] = (1, C(1))
+                        t.cells[((), b + cx.foff('last_activity_ts'))] = (8, stamp)
+                        lim = lin_of(('add', stamp, C(oracle.SESSION_EXPIRY_S)))
+                        if late:
+                            f = lim.add(lin_of(clk), -1)
+                            f.k += 1
+                        else:
+                            f = lin_of(clk).add(lim, -1)
+                        st.add_fact(f)
+                    ap = ix.parse_type('automata *')
+                    return [Val(ap, ZERO), Val(ap, ZERO), Val(cx.ty('session_table *'), ('ptr', 'T', ZERO)), Val(cx.ty('const lltd_automata_tick_port *'), ZERO)]
+                I3, o3 = run_entry(cx.prog, AUTOMATA_UNIT, 'automata_tick', setup3, engine=E3,
+                                   name='automata_tick[entries %d %s, %d %s]' % (j1, 'late' if late1 else 'fresh', j2, 'late' if late2 else 'fresh'))
+                for st, v in o3:
+                    T = st.objs['T']
+                    want_cnt = (0 if late1 else 1) + (0 if late2 else 1)
+                    cnt = cx.tfield(st, 'count')
+                    for j, late in ((j1, late1), (j2, late2)):
+                        val = st.canon(mem.load_scalar(st, T, C(cx.eoff + j * cx.esz + cx.foff('valid')), cx.ty('unsigned char')))
+                        rep.check(val == (ZERO if late else ONE), 'R16.expiry', 'pair|%s' % ('late-dropped' if late else 'fresh-kept'),
+                                  'two sessions (slots %d: %s, %d: %s) at one tick: slot %d is %s afterwards' % (
+                                      j1, 'idle > 60 s' if late1 else 'fresh', j2, 'idle > 60 s' if late2 else 'fresh', j, 'still valid' if late else 'dropped'),
+                                  function='automata_tick', file=fnf)
+                    rep.check(cnt == C(want_cnt), 'R16.expiry', 'pair|count', 'two sessions (slots %d: %s, %d: %s) at one tick leave count = %s, expected %d' % (
+                        j1, 'idle' if late1 else 'fresh', j2, 'idle' if late2 else 'fresh', short(cnt), want_cnt), function='automata_tick', file=fnf)
     for st, v in outs:
         rec = [e for e in st.trace if e[0] == 'recompute']
         rep.check(bool(rec), 'R16.expiry', 'recompute-after', "the expiry sweep is not followed by the 'all complete' recomputation", function='automata_tick', file=fnf)
